@@ -604,6 +604,13 @@ def required_traits(W, name):
     return own | getattr(W, 'alloc_cfg_traits', {}).get(key, 0)
 
 
+def configured_label(W, name):
+    """Partition of the allocation the harness put the instance into (the
+    back-reference on the object under test may be lost)."""
+    key = getattr(W, 'app_alloc', {}).get(int(name[-10:]))
+    return key[0] if key else None
+
+
 def c03_oracle(W, placement, pre_state, tag=''):
     S, sch = W.S, W.sch
     mem = W.cell.members()
@@ -618,10 +625,11 @@ def c03_oracle(W, placement, pre_state, tag=''):
         S.check('C03:assigned_to_server_that_is_not_up' + tag,
                 pre_state.get(sa) == 'up' and srv.state is sch.State.up,
                 {'app': name, 'server': sa, 'state': str(srv.state)})
-        if app.allocation is not None:
+        label = configured_label(W, name)
+        if label is not None:
             S.check('C03:assigned_outside_partition' + tag,
-                    app.allocation.label in srv.labels,
-                    {'app': name, 'server': sa})
+                    label in srv.labels,
+                    {'app': name, 'server': sa, 'partition': label})
         need = required_traits(W, name)
         S.check('C03:assigned_without_required_traits' + tag,
                 (srv.traits.self_traits & need) == need,
@@ -645,11 +653,11 @@ def c03_oracle(W, placement, pre_state, tag=''):
         srv = mem.get(app.server)
         if srv is None:
             continue
-        if app.allocation is not None:
+        label = configured_label(W, name)
+        if label is not None:
             S.check('C03:placed_instance_on_foreign_partition' + tag,
-                    app.allocation.label in srv.labels,
-                    {'app': name, 'server': app.server,
-                     'label': app.allocation.label})
+                    label in srv.labels,
+                    {'app': name, 'server': app.server, 'label': label})
         need = required_traits(W, name)
         S.check('C03:placed_instance_lacks_traits' + tag,
                 (srv.traits.self_traits & need) == need,
